@@ -754,6 +754,15 @@ func finishEvals(c *core.Ctx, evs []*ev, fails [][]failure, judged []int) {
 		}
 	}
 	sort.Strings(order)
+	explained := map[string]int{}
+	for _, k := range order {
+		if len(gm[k].first.keys) > 0 {
+			explained[k] = gm[k].n
+		}
+	}
+	if len(explained) > 0 {
+		c.Set("failing_evaluations_by_classifier", explained)
+	}
 	for _, k := range order {
 		g := gm[k]
 		f := g.first
